@@ -219,6 +219,8 @@ func init() {
 			r.Rule("R02.5", 1, "check-then-act atomicity of the scoped branch")
 			r.Rule("R02.6", 3, "every scope handed to a caller has run the initializer pass exactly once")
 			r.Rule("R02.7", 8, "resolution entry points and lookups store nothing themselves")
+			r.Rule("R02.8", 8, "no captive path: the lifetime-validation rules of C07 (a singleton or transient that captures a scoped instance makes scopes share it)")
+			r.Rule("R02.9", 20, "R-KEYLIT: cache keys keep every identity component")
 			ruleWhoWritesTables(w, r, "", "R02.1", la)
 			ruleResolveSwitch(w, r, "", "R02.2", "")
 			ruleCreateStores(w, r, "R02.3")
@@ -226,6 +228,16 @@ func init() {
 			ruleCheckThenAct(w, r, "R02.5", la)
 			ruleInitializersOnce(w, r, "R02.6")
 			ruleEntryPointsStoreNothing(w, r, "R02.7")
+			sub := NewReport(r.Prop, r.Tier, w)
+			for _, id := range []string{"R07.1", "R07.2", "R07.3", "R07.4", "R07.5", "R07.6"} {
+				sub.Rule(id, 0, "")
+			}
+			checkC07(w, sub)
+			for _, o := range sub.Obs {
+				o.Rule = "R02.8"
+				r.Obs = append(r.Obs, o)
+			}
+			ruleKeyLiterals(w, r, "R02.9")
 		})
 	register("C03",
 		"Structural necessary conditions of 'transient: a fresh instance for every resolution and injection site': the Transient clause of resolve never consults a cache and every exit comes from a fresh createInstance; the Transient clause of setInstance writes no cache; resolution entry points (including GetGroup) memoise nothing; the invoker, builder and cached analysis records hold no per-call state (record confinement); arguments are resolved one by one per invocation. NOT decided: counts versus number of request sites.",
